@@ -156,6 +156,24 @@ CLAIMED = {
              "known finding (KF-C14-1: a missing entity id aborts validation). Counterexamples are "
              "replayed on a real HDF5 file.",
         ref="3 C14"),
+    "C08": dict(
+        text="For a tag on a 1-d array with a sampled / range / set descriptor, every position and "
+             "extent on the lattice k/16 (|x| <= 32), sampling interval 1 (quick; 2^-3..2^3 thorough), "
+             "offsets, tick vectors of 1-3 ticks, 0 or 3 labels, both stop rules, extent absent / 0 / "
+             "> 0, referenced extents 0..12, and six tag-unit / dimension-unit cases (none, equal, "
+             "cm->mm, unit only on the dimension, only on the tag, different base unit): "
+             "tagged_data is a valid view whose window is exactly [min R, max R] of the index set R "
+             "of the samples inside the region, an invalid empty view iff R is empty, OutOfBounds iff "
+             "R runs past the stored extent, IncompatibleDimensions iff the units cannot be "
+             "converted. Rank 2: dimension beyond the position's length taken whole. Multi-tags: "
+             "row selection (1-d and 2-d positions, row out of range -> OutOfBounds). Features: "
+             "tagged = same region rule on the feature array, indexed = the row, untagged = whole.",
+        note="Coordinates are exact rationals standing for floats on a lattice where IEEE arithmetic "
+             "is exact (DESIGN.md lattice lemma); unit factors 1 and 10 only (down-scaling factors "
+             "are inexact in binary); defects that exist only through float rounding of non-dyadic "
+             "intervals (0.1, 0.3 ...) are outside this check. fakeh5 backend; counterexamples are "
+             "replayed with real floats on a real HDF5 file.",
+        ref="3 C08"),
 }
 
 NOT_APPLICABLE = {
